@@ -2505,7 +2505,7 @@ package engine
 //@   onk[no-binding-of-the-test-is-kept] kenv == param(4)
 //@   nok[fails-otherwise] result == falsePromise && called(theta) && (!uok || (called(d) && d != 0))
 //@ func (*VM).exec
-//@   property C02 C03
+//@   property C02 C03 C10
 //@   nosafety
 //@   trusted-frame
 //@   unify-result-checked
@@ -2528,6 +2528,8 @@ package engine
 //@   never-calls (*Env).bind
 //@   never-calls (*Env).lookup
 //@   never-calls (*Env).insert
+//@   -- exec decides nothing by the representation of a term: whether a head argument matches is Env.Unify's answer alone
+//@   never-asserts list, charList, codeList, *partial, *compound, Compound, Atom, Variable, Float
 //@   frozen cutParent, cont, vars, vm
 //@   at-call cut requires[a-cut-discards-down-to-the-promise-of-the-predicate-call-the-clause-belongs-to] a0 == local(cutParent, *Promise)
 
